@@ -86,6 +86,8 @@ func TestVerif(t *testing.T) {
 			"real": p.Real, "stub": p.Stub, "rule": p.Rule, "has_race": p.GenRace != nil})
 		fmt.Println()
 		fmt.Println(string(b))
+	case "gen":
+		os.WriteFile(*fOut, gen(p, *fBase).JSON(), 0o644)
 	case "batch":
 		batch(t, p)
 	case "run":
